@@ -140,7 +140,8 @@ def run(rep, facts, tier):
                 of.name, t.get('at'))
 
     # ---------- R3
-    cf = fx.need(COMMIT)
+    fx.need(COMMIT)
+    cf = V(COMMIT)            # `let end = offset_after(xs, nbits)?` reads as the checked addition the helper performs
     mv = [(bb, t) for bb, t in cf.calls() if callee_of(t) == MOVE]
     chk = [(bb, t) for bb, t in cf.calls() if callee_of(t) == 'state::State::check_stack_limit']
     if not mv:
@@ -276,11 +277,13 @@ def run(rep, facts, tier):
         if kind == 'assign':
             e = nf.expr_of_rvalue(payload, 0, frozenset())
             for x in expr_walk(e):
-                if isinstance(x, tuple) and x[0] == 'agg' and x[1] == 'tuple' and len(x[3]) == 2:
-                    first, second = x[3]
-                    reads = [y for y in expr_walk(first) if isinstance(y, tuple) and y[0] == 'call' and y[1] == 'bitstr::Bitstr::read']
-                    if reads and _mentions(first, {'bitstr_ext::rest_bits'}) and repr(zstrip(reads[0][2][1])) == repr(zstrip(second)):
-                        okn = True
+                # a pair - tuple or a two-field struct, in either order - of the first n bits of the rest (read / peek / substr from 0)
+                # and that same n
+                if isinstance(x, tuple) and x[0] == 'agg' and len(x) > 3 and isinstance(x[3], (list, tuple)) and len(x[3]) == 2:
+                    for first, second in (tuple(x[3]), tuple(x[3])[::-1]):
+                        reads = [y for y in expr_walk(first) if isinstance(y, tuple) and y[0] == 'call' and y[1] in ('bitstr::Bitstr::read', 'bitstr::Bitstr::peek')]
+                        if reads and _mentions(first, {'bitstr_ext::rest_bits'}) and repr(zstrip(reads[0][2][1])) == repr(zstrip(second)):
+                            okn = True
     rep.add('C06.R3', 'C06.R3:nulbytestr_peek:advance-is-length-read', okn,
             'returns (rest.read(len), len) for the same rest and len' if okn else
             'nulbytestr_peek result is not (rest.read(len), len) with one len', nf.name, nf.j['span'])
